@@ -70,3 +70,33 @@ pub(crate) fn observer_push<T: FloatT>(tau: T, kappa: T, x: &[T], s: &[T], z: &[
         }
     });
 }
+
+// H4 : virtual clock.  Inert (always 0) unless armed on this thread; when armed, the
+// solver timers account virtual nanoseconds in addition to real elapsed time, at exactly
+// the places where they account real time.
+thread_local! {
+    static VCLOCK: std::cell::Cell<Option<u64>> = const { std::cell::Cell::new(None) };
+}
+
+/// arm the virtual clock on this thread, starting at zero
+pub fn vclock_arm() {
+    VCLOCK.with(|c| c.set(Some(0)));
+}
+/// disarm the virtual clock on this thread
+pub fn vclock_disarm() {
+    VCLOCK.with(|c| c.set(None));
+}
+/// let `nanos` virtual nanoseconds pass (no effect unless armed)
+pub fn vclock_advance(nanos: u64) {
+    VCLOCK.with(|c| {
+        if let Some(t) = c.get() {
+            c.set(Some(t + nanos));
+        }
+    });
+}
+pub(crate) fn vclock_now() -> u64 {
+    VCLOCK.with(|c| c.get().unwrap_or(0))
+}
+pub(crate) fn vclock_since(start: u64) -> std::time::Duration {
+    std::time::Duration::from_nanos(vclock_now().saturating_sub(start))
+}
